@@ -11,7 +11,7 @@ from . import runtime as rtm
 from . import tlc
 
 
-def export_instance(prog, run_index=0):
+def export_instance(prog, run_index=0, cancel=False, collab=None):
     rt = rtm.Runtime()
     chart, dag, classes = programs.build_chart(prog, rt)
     g = dag.graph
@@ -52,7 +52,8 @@ def export_instance(prog, run_index=0):
     desc = {short(n): [short(x) for x in list(nx.descendants_at_distance(g, n, 1))] for n in g.nodes}
     return {'name': prog['name'], 'nodes': nodes, 'attr': attr, 'succ': succ, 'edge': edge, 'desc': desc, 'plan': plan,
             'recreq': recreq, 'recfalsy': recfalsy, 'input': short(dag.input_node), 'output': short(dag.output_node),
-            'prog': programs.to_tla(prog)}
+            'prog': programs.to_tla(prog), 'cancel': bool(cancel),
+            'collab': {'ev': (collab or {}).get('ev', 'sync'), 'save': (collab or {}).get('save', 'sync')}}
 
 
 ENGINE_CFG = '''SPECIFICATION Spec
@@ -76,3 +77,15 @@ def check_instance(inst, cfg=ENGINE_CFG, workers=4, extra=('-continue',), timeou
     stats['ok'] = 'Model checking completed. No error has been found.' in out
     stats['out'] = out
     return stats
+
+
+LIVENESS_CFG = '''SPECIFICATION FairSpec
+PROPERTY Termination
+CHECK_DEADLOCK FALSE
+'''
+
+
+def check_liveness(inst, workers=2, timeout=1800):
+    """C02 as a liveness property: under weak fairness of the loop every behaviour ends the run (no state constraint,
+    no VIEW)"""
+    return check_instance(inst, cfg=LIVENESS_CFG, workers=workers, extra=(), timeout=timeout)
